@@ -38,14 +38,63 @@ HasHostile(v) == CASE v.t = "str" -> HostileStr(v)
                    [] v.t = "obj" -> \E i \in DOMAIN v.k : v.k[i] = "<<" \/ HasHostile(v.v[i])
                    [] OTHER -> FALSE
 YamlEmitter(line, failed) ==
-   /\ failed \in {"ja", "jb", "ji"}
-   /\ line.obs.j2.ok /\ line.obs.j2.v = J1(line)
+   /\ failed \in {"ja", "jb", "ji", "jk", "jyu", "jo"}
+   /\ "j2" \in DOMAIN line.obs /\ line.obs.j2.ok /\ line.obs.j2.v = J1(line)
    /\ HasHostile(line.in)
    /\ ~line.obs[failed].ok /\ line.obs[failed].err = "load"
 
 (* F-C03-5: Schema.UnmarshalJSON rewrites a string example ending in "T00:00:00Z" of a format: date schema. *)
 DateExampleTrimmed(line) ==
    LET w == DateTrimmed(line.ver, line.in) IN w # line.in /\ AllowedFor(line.ver, w, J1(line))
+
+(* F-C03-6: with the reader option IncludeOrigin the YAML reader adds an "__origin__" entry (key / fields  *)
+(* locations) to every mapping that is a map value or a sequence element; the typed objects take it into   *)
+(* their Origin field, free-form values (extension values, example / default / enum, Example.value, link    *)
+(* parameters and requestBody) keep it: the serialised document holds "__origin__" keys that are not in     *)
+(* the input.  W = the observation with exactly those entries removed must be j1.                           *)
+OriginShaped(v) == v.t = "obj" /\ SeqRange(v.k) \subseteq {"key", "fields"}
+RECURSIVE StripOrigin(_)
+StripOrigin(v) ==
+   CASE v.t = "arr" -> Av([i \in DOMAIN v.a |-> StripOrigin(v.a[i])])
+     [] v.t = "obj" -> LET keep == [i \in DOMAIN v.k |-> ~(v.k[i] = "__origin__" /\ OriginShaped(v.v[i]))]
+                       IN Ov(Pick(v.k, keep, 1), Pick([i \in DOMAIN v.v |-> StripOrigin(v.v[i])], keep, 1))
+     [] OTHER -> v
+OriginInvented(line, failed) ==
+   /\ failed = "jo" /\ "jo" \in DOMAIN line.obs /\ line.obs.jo.ok
+   /\ line.obs.jo.v # J1(line) /\ StripOrigin(line.obs.jo.v) = J1(line)
+
+(* F-C03-7: with IncludeOrigin the YAML reader (github.com/oasdiff/yaml3 origin.go addOriginInSeq) takes    *)
+(* the first key of a mapping that is a sequence element as its location: an EMPTY mapping in a sequence    *)
+(* (`security: [{}]` = anonymous access allowed, `allOf: [{}]`, an `enum` / `example` holding [{}])         *)
+(* indexes an empty slice: Loader.LoadFromData panics.                                                      *)
+RECURSIVE HasEmptyMapInSeq(_)
+HasEmptyMapInSeq(v) == CASE v.t = "arr" -> \E i \in DOMAIN v.a : v.a[i] = EmptyO \/ HasEmptyMapInSeq(v.a[i])
+                         [] v.t = "obj" -> \E i \in DOMAIN v.v : HasEmptyMapInSeq(v.v[i])
+                         [] OTHER -> FALSE
+OriginPanic(line, failed) ==
+   /\ failed = "jo" /\ "jo" \in DOMAIN line.obs /\ ~line.obs.jo.ok /\ line.obs.jo.err = "panic" /\ line.obs.jo.stage = "load"
+   /\ HasEmptyMapInSeq(line.in)
+   /\ "ji" \in DOMAIN line.obs /\ line.obs.ji.ok /\ line.obs.ji.v = J1(line)       \* the same YAML text loads without the option
+
+(* F-C03-8: openapi3.T has its MarshalJSON / MarshalYAML on the pointer (every other struct-like kind and   *)
+(* openapi2.T have them on the value): json.Marshal of a T held BY VALUE (json.Marshal of a dereferenced doc, a T embedded *)
+(* by value in a response struct) does not reach them, encoding/json writes the tagged struct fields and    *)
+(* the root's extensions and unknown keys (Extensions is tagged "-") are lost.  W = j1 restricted to the    *)
+(* catalogue fields of the root.                                                                            *)
+RootKnownOnly(v) == LET keep == [i \in DOMAIN v.k |-> v.k[i] \in FieldNames("T3")] IN Ov(Pick(v.k, keep, 1), Pick(v.v, keep, 1))
+ByValueRootExt(line, failed) ==
+   /\ failed = "jv" /\ line.ver = 3 /\ "jv" \in DOMAIN line.obs /\ line.obs.jv.ok
+   /\ line.obs.jv.v # J1(line) /\ line.obs.jv.v = RootKnownOnly(J1(line))
+
+(* F-C03-9: the reference wrapper types (SchemaRef, ResponseRef ... and openapi2.SchemaRef) unmarshal in    *)
+(* place: a reference object sets Ref (and extra / Extensions) and leaves Value, an inline object is        *)
+(* decoded into Value and leaves Ref.  A wrapper value that held a reference and is unmarshalled into with *)
+(* an inline object still says $ref: the serialisation is the EARLIER reference, the input is lost.         *)
+WrapperKeepsRef(line, failed) ==
+   /\ failed = "jh" /\ line.hist.entry = "wrap" /\ line.obs.jh.ok
+   /\ ~HasKey(line.hist.frag, "$ref")
+   /\ \E i \in DOMAIN line.hist.prior : line.hist.prior[i].name \in {"kref", "krefx"}
+   /\ line.obs.jh.v = RefObj(line.d.kind)
 
 Class(line, failed) ==
    IF failed = "first"
@@ -55,5 +104,9 @@ Class(line, failed) ==
         ELSE IF DateExampleTrimmed(line) THEN "date_example_time_trimmed"
         ELSE "none"
    ELSE IF YamlEmitter(line, failed) THEN "yaml_emitter_block_scalar_or_merge_key"
+   ELSE IF OriginInvented(line, failed) THEN "include_origin_key_invented"
+   ELSE IF OriginPanic(line, failed) THEN "include_origin_empty_map_in_sequence_panics"
+   ELSE IF ByValueRootExt(line, failed) THEN "v3_T_by_value_drops_root_extensions"
+   ELSE IF WrapperKeepsRef(line, failed) THEN "ref_wrapper_unmarshal_keeps_earlier_ref"
    ELSE "none"
 =============================================================================
